@@ -19,8 +19,8 @@ Open Scope N_scope.
    over the pre-order, emits exactly the recursive bracket sequence of the tree: START ... END around
    the children, EMPTY for an empty-element tag, STRING for a string — for every tree (and from the
    children of the starting element, as decode_contents and a hidden BeautifulSoup object do) *)
-Theorem C05_event_stream_brackets : forall q par pn nn t,
-  event_stream (flat q par pn nn t) = brackets q par pn nn t.
+Theorem C05_event_stream_brackets : forall q par pn t,
+  event_stream (flat q par pn t) = brackets q par pn t.
 Proof. exact event_stream_tree. Qed.
 Print Assumptions C05_event_stream_brackets.
 
@@ -41,28 +41,28 @@ Theorem C05_no_empty_tag_with_children : forall t, Forall empty_ok (event_stream
 Proof. exact no_empty_tag_with_children. Qed.
 Print Assumptions C05_no_empty_tag_with_children.
 
-Theorem C05_tag_with_children_rendering : forall enc f pn nn p k ks,
-  plain enc f pn nn (NTag p (k :: ks)) =
+Theorem C05_tag_with_children_rendering : forall enc f pn p k ks,
+  plain enc f pn (NTag p (k :: ks)) =
   format_tag enc f p (S (List.length ks)) true :: plain_kids enc f (g_name p) (k :: ks) ++ [format_tag enc f p (S (List.length ks)) false]
   /\ is_empty_element p (S (List.length ks)) = false.
 Proof. exact tag_with_children_rendering. Qed.
 Print Assumptions C05_tag_with_children_rendering.
 
-Theorem C05_cdata_text_verbatim : forall f c s pname nn,
+Theorem C05_cdata_text_verbatim : forall f c s pname,
   output_kind c = 0 -> affixes c = ([], []) -> memS pname (f_cdata f) = true ->
-  output_ready f c s (Some pname) nn = s.
+  output_ready f c s (Some pname) = s.
 Proof. exact cdata_text_verbatim. Qed.
 Print Assumptions C05_cdata_text_verbatim.
 
-Theorem C05_other_text_substituted : forall f g c s pname nn,
+Theorem C05_other_text_substituted : forall f g c s pname,
   f_subst f = Some g -> output_kind c = 0 -> affixes c = ([], []) ->
   match pname with Some n => memS n (f_cdata f) | None => false end = false ->
-  output_ready f c s pname nn = g s.
+  output_ready f c s pname = g s.
 Proof. exact other_text_substituted. Qed.
 Print Assumptions C05_other_text_substituted.
 
 Theorem C05_special_strings_verbatim : forall f c s pname,
-  output_kind c = 1 -> output_ready f c s pname false = fst (affixes c) ++ s ++ snd (affixes c).
+  output_kind c = 1 -> output_ready f c s pname = fst (affixes c) ++ s ++ snd (affixes c).
 Proof. exact preformatted_verbatim. Qed.
 Print Assumptions C05_special_strings_verbatim.
 
@@ -102,19 +102,45 @@ Theorem C05_read_text_inverts_substitute_xml : forall s,
 Proof. intros s. split; [apply read_text_subst_xml|apply read_text_attr_subst_xml]. Qed.
 Print Assumptions C05_read_text_inverts_substitute_xml.
 
-(* A second round trip changes nothing: the re-parsed tree, put back under a document root, rendered and
-   re-parsed again is itself — for every tree (norm is idempotent through doc), whenever the builder's
-   string containers hold text classes; with the HTML builder's tables nothing is assumed *)
-Theorem C05_second_roundtrip_changes_nothing : forall enc f cfg,
-  (forall n c, assocS n (c_containers cfg) = Some c -> output_kind c = 0) ->
-  forall t, norm enc f cfg (doc cfg (norm enc f cfg t)) = norm enc f cfg t.
-Proof. exact norm_second_roundtrip. Qed.
-Print Assumptions C05_second_roundtrip_changes_nothing.
+(* A second round trip changes nothing — full strength:
+     forall t, norm enc f cfg (doc cfg (norm enc f cfg t)) = norm enc f cfg t
+   is FALSE of the code: a doctype's newline is written again on every rendering and merges into the text that
+   follows, so that text grows by one newline per round trip (known finding C05-doctype-newline-accumulates).
+   Proved: it holds for every tree whose re-parsed form has stable doctypes — outside whitespace-preserving
+   elements every string written with a trailing newline (the Doctype) is followed by exactly the text "\n"
+   (whitespace-only runs collapse back to it), as in  <!DOCTYPE html>\n<html>...  *)
+Theorem C05_second_roundtrip_partial : forall enc f cfg,
+  (forall n c, assocS n (c_containers cfg) = Some c -> output_kind c = 0) -> memN 10 (c_spaces cfg) = true ->
+  forall t, stable_doctypes cfg (norm enc f cfg t) = true ->
+  norm enc f cfg (doc cfg (norm enc f cfg t)) = norm enc f cfg t.
+Proof. exact norm_second_roundtrip_partial. Qed.
+Print Assumptions C05_second_roundtrip_partial.
 
-Theorem C05_second_roundtrip_html : forall enc f t,
+Theorem C05_second_roundtrip_html_partial : forall enc f t,
+  stable_doctypes html_bcfg (norm enc f html_bcfg t) = true ->
   norm enc f html_bcfg (doc html_bcfg (norm enc f html_bcfg t)) = norm enc f html_bcfg t.
-Proof. exact norm_second_roundtrip_html. Qed.
-Print Assumptions C05_second_roundtrip_html.
+Proof. exact norm_second_roundtrip_partial_html. Qed.
+Print Assumptions C05_second_roundtrip_html_partial.
+
+(* the excluded class is real: <!DOCTYPE x>a  re-parses as  Doctype "x", "\na"  and then as  Doctype "x", "\n\na" *)
+Theorem C05_second_roundtrip_refuted :
+  let f := mkfmt (Some subst_xml) (lit "/") html_cdata_containing_tags false (lit " ") in
+  exists t, representable_top f (html_rcfg true) html_bcfg t = true /\
+            t = doc html_bcfg [NS 6 (lit "x"); NS 0 (lit "a")] /\
+            norm true f html_bcfg t = [NS 6 (lit "x"); NS 0 (10 :: lit "a")] /\
+            norm true f html_bcfg (doc html_bcfg (norm true f html_bcfg t)) = [NS 6 (lit "x"); NS 0 (10 :: 10 :: lit "a")].
+Proof. eexists. repeat split; reflexivity. Qed.
+Print Assumptions C05_second_roundtrip_refuted.
+
+(* the hypothesis is satisfiable: <!DOCTYPE html>\n<p>a</p> — also without the newline in the source, which the
+   first round trip supplies *)
+Example C05_stable_doctypes_example :
+  let f := mkfmt (Some subst_xml) (lit "/") html_cdata_containing_tags false (lit " ") in
+  let p := NT (lit "p") [] [NS 0 (lit "a")] in
+  stable_doctypes html_bcfg (norm true f html_bcfg (doc html_bcfg [NS 6 (lit "html"); NS 0 [10]; p])) = true /\
+  stable_doctypes html_bcfg (norm true f html_bcfg (doc html_bcfg [NS 6 (lit "html"); p])) = true /\
+  stable_doctypes html_bcfg (norm true f html_bcfg (doc html_bcfg [NS 6 (lit "x"); NS 0 (lit "a")])) = false.
+Proof. repeat split; reflexivity. Qed.
 
 (* ---- table obligations ---- *)
 
@@ -128,9 +154,9 @@ Proof. reflexivity. Qed.
 Print Assumptions C05_string_class_affixes.
 
 (* NavigableString and the container classes go through the formatter; CData, processing instructions,
-   Comment, Declaration bypass it; Doctype bypasses it and has the single-newline rule *)
+   Comment, Declaration, Doctype bypass it; no class has an output_ready of its own *)
 Theorem C05_string_class_output :
-  string_class_output = [(0, 0); (1, 1); (2, 1); (3, 1); (4, 1); (5, 1); (6, 2); (7, 0); (8, 0); (9, 0); (10, 0); (11, 0)].
+  string_class_output = [(0, 0); (1, 1); (2, 1); (3, 1); (4, 1); (5, 1); (6, 1); (7, 0); (8, 0); (9, 0); (10, 0); (11, 0)].
 Proof. reflexivity. Qed.
 Print Assumptions C05_string_class_output.
 
